@@ -64,8 +64,14 @@ func (bc *bufferedConn) writeProcess() {
 			continue
 		}
 
-		if _, err := bc.Conn.Write(pktBuf[:n]); err != nil {
+		if written, err := bc.Conn.Write(pktBuf[:n]); err != nil {
 			bc.logger.Warnf("Failed to write: %s", err)
+			if written > 0 {
+				// truncated frame on the wire: the stream is unusable
+				_ = bc.Close()
+
+				return
+			}
 
 			continue
 		}
